@@ -94,6 +94,16 @@ def definitions():
             for j in range(p - 1, len(close)):
                 if not (b.upperband[j] >= b.middleband[j] - 1e-9 and b.middleband[j] >= b.lowerband[j] - 1e-9):
                     return f'bollinger_bands(period={p})[{j}]: bands not ordered'
+            # the middle band follows the selected average (matype 1 = EMA) over the whole history, in the single-value mode as well
+            if len(close) <= 240:
+                for seqm in (True, False):
+                    bm = ta.bollinger_bands(c, p, matype=1, sequential=seqm)
+                    em = ta.ema(c, p, sequential=True)
+                    got = bm.middleband if seqm else np.asarray([bm.middleband])
+                    want = em if seqm else em[-1:]
+                    if not eq(got, want):
+                        return (f'bollinger_bands(period={p}, matype=1, sequential={seqm}): middle band {np.asarray(got)[-1]} is not the EMA '
+                                f'{np.asarray(want)[-1]} of the close')
             for name in ('sma', 'ema', 'wma'):
                 x1 = getattr(ta, name)(c, p, sequential=True)
                 c2 = c.copy()
